@@ -20,6 +20,11 @@ type shardRecord struct {
 	desc    string
 	zones   int
 	tokened bool // every instance owned tokens (the property's quantifier)
+	regs    map[string]string // member -> registration identity (registration time and tokens) when recorded
+}
+
+func regIdentity(e ring.InstanceDesc) string {
+	return fmt.Sprintf("%d/%v", e.RegisteredTimestamp, e.Tokens)
 }
 
 // runC12: ring histories produced by lifecyclers (joins, leaves, read-only toggles) plus truthful
@@ -42,6 +47,7 @@ func runC12(s *sim.Sim) {
 	lastQueryAt := time.Duration(0)
 	windowChanges := false
 	var changeTimes []time.Duration
+	lastSilentTokenChange := time.Duration(-1)
 	observer := func(w *world) {
 		ver := w.store.Version(ringKey)
 		for ; w.observedCommits < len(w.store.Commits); w.observedCommits++ {
@@ -51,6 +57,13 @@ func runC12(s *sim.Sim) {
 			if in != nil && out != nil {
 				if membershipChanged(in, out) {
 					changeTimes = append(changeTimes, s.Elapsed())
+				}
+				// an instance that keeps its registration but changes its tokens moves data in a way no timestamp reveals
+				for id, e := range in.Ingesters {
+					if o, ok := out.Ingesters[id]; ok && o.RegisteredTimestamp == e.RegisteredTimestamp && fmt.Sprint(o.Tokens) != fmt.Sprint(e.Tokens) {
+						lastSilentTokenChange = s.Elapsed()
+						s.Probe("silent-token-change")
+					}
 				}
 				w.checkShardStability(in, out, c, ids)
 			}
@@ -62,6 +75,12 @@ func runC12(s *sim.Sim) {
 		lastVer, lastQueryAt = ver, s.Elapsed()
 		d := w.desc().Clone().(*ring.Desc)
 		if _, dup := ownersOf(d); dup || len(d.Ingesters) == 0 {
+			// nothing is recorded for this version: the previous records stop being valid here
+			if versionChanged {
+				for key := range history {
+					history[key] = append(history[key], shardRecord{at: s.Elapsed()})
+				}
+			}
 			return
 		}
 		r := w.freshRing(d, c)
@@ -91,7 +110,11 @@ func runC12(s *sim.Sim) {
 						owning = append(owning, x) // token-less instances own no data: no look-back obligation
 					}
 				}
-				history[key] = append(history[key], shardRecord{s.Elapsed(), owning, fmtDesc(d), numZones(d), allHaveTokens(d)})
+				regs := map[string]string{}
+				for _, x := range owning {
+					regs[x] = regIdentity(d.Ingesters[x])
+				}
+				history[key] = append(history[key], shardRecord{s.Elapsed(), owning, fmtDesc(d), numZones(d), allHaveTokens(d), regs})
 			}
 			// containment of smaller shards
 			step := 1
@@ -112,18 +135,43 @@ func runC12(s *sim.Sim) {
 		now := time.Now()
 		for _, id := range ids {
 			for _, size := range []int{1, 2, 3, 4} {
-				for _, period := range []time.Duration{30 * time.Second, 2 * time.Minute, 10 * time.Minute} {
+				periods := []time.Duration{30 * time.Second, 2 * time.Minute, 10 * time.Minute}
+				// and windows that start exactly in the second of a recent registration or read-only switch
+				extra := map[time.Duration]bool{}
+				for _, e := range d.Ingesters {
+					for _, ts := range []int64{e.RegisteredTimestamp, e.ReadOnlyUpdatedTimestamp} {
+						if p := now.Sub(time.Unix(ts, 0)); ts > 0 && p > 0 && p < 10*time.Minute && len(extra) < 3 && !extra[p] {
+							extra[p] = true
+							periods = append(periods, p)
+						}
+					}
+				}
+				sort.Slice(periods, func(i, j int) bool { return periods[i] < periods[j] })
+				for _, period := range periods {
 					var sub ring.ReadRing
 					w.try("ShuffleShardWithLookback", func() { sub = r.ShuffleShardWithLookback(id, size, period, now) })
 					if sub == nil {
 						continue
 					}
-					for _, rec := range history[fmt.Sprintf("%s/%d", id, size)] {
-						if s.Elapsed()-rec.at > period || !rec.tokened || !allHaveTokens(d) {
+					hist := history[fmt.Sprintf("%s/%d", id, size)]
+					for i, rec := range hist {
+						// the record describes the shard from rec.at until the next record
+						until := s.Elapsed()
+						if i+1 < len(hist) {
+							until = hist[i+1].at
+						}
+						if until < s.Elapsed()-period || !rec.tokened || !allHaveTokens(d) {
 							continue
+						}
+						if rec.at <= lastSilentTokenChange {
+							continue // "as far as registration and read-only change times reveal"
 						}
 						for _, m := range rec.members {
 							if e, still := d.Ingesters[m]; !still || len(e.Tokens) == 0 {
+								continue
+							} else if regIdentity(e) != rec.regs[m] {
+								// registered anew (or with other tokens) since: not the registration that was in the shard
+								s.Probe("lookback-member-reregistered")
 								continue
 							}
 							if !sub.HasInstance(m) {
